@@ -57,6 +57,9 @@ func (e *c11FlushEnv) pump(until func() bool) (flushed bool, ok bool) {
 			case *protocol.MemCopyH2DReq:
 				e.deliver(sim.GeneralRspBuilder{}.WithSrc(e.cpPort.AsRemote()).WithDst(e.gpuPort.AsRemote()).WithOriginalReq(q).Build())
 			case *protocol.MemCopyD2HReq:
+				for i := range q.DstBuffer {
+					q.DstBuffer[i] = byte((q.SrcAddress+uint64(i))*13%255) + 1 // never zero
+				}
 				e.deliver(sim.GeneralRspBuilder{}.WithSrc(e.cpPort.AsRemote()).WithDst(e.gpuPort.AsRemote()).WithOriginalReq(q).Build())
 			}
 		}
@@ -79,6 +82,28 @@ func (e *c11FlushEnv) deliver(m sim.Msg) {
 
 func c11FlushScenario(r *Run, rng *Rng) {
 	e := newC11FlushEnv()
+	// A copy is complete when it is dequeued (that is what wakes DrainCommandQueue): at that
+	// moment a device-to-host copy must already have filled the caller's buffer.
+	early := ""
+	driver.VerifYield = func(point string) {
+		if point != "queue.dequeue" || e.qCopy.NumCommand() == 0 {
+			return
+		}
+		if c, ok := e.qCopy.Peek().(*driver.MemCopyD2HCommand); ok {
+			if dst, ok := c.Dst.([]byte); ok && len(dst) > 0 {
+				nonzero := false
+				for _, b := range dst {
+					if b != 0 {
+						nonzero = true
+					}
+				}
+				if !nonzero {
+					early = fmt.Sprintf("D2H copy from %x (%d bytes) is dequeued while the host buffer is still empty", uint64(c.Src), len(dst))
+				}
+			}
+		}
+	}
+	defer func() { driver.VerifYield = nil }()
 	type buf struct{ addr, size uint64 }
 	var bufs []buf
 	ops := []string{"c11 flush"}
@@ -154,6 +179,11 @@ func c11FlushScenario(r *Run, rng *Rng) {
 				fail("C11.flush.copy-stuck", "copy did not complete although every request was answered")
 				return
 			}
+			r.Checked("complete-after-data")
+			if early != "" {
+				fail("C11.copy.complete-before-data", early)
+				return
+			}
 			if flushed {
 				out = append(out, "F")
 			} else {
@@ -184,4 +214,52 @@ func runC11Flush(r *Run, rng *Rng, replay string) {
 	for i := 0; i < n; i++ {
 		c11FlushScenario(r, rng)
 	}
+}
+
+// c11EmuCompleteAfterData: the same rule on the direct-storage copy path (emulation platform's
+// middleware): when a D2H command is dequeued the caller's buffer already holds the data.
+func c11EmuCompleteAfterData(r *Run, rng *Rng) {
+	p := newEmuPlatform(r.OutDir, 1, 12)
+	defer p.close()
+	ctx := p.drv.Init()
+	buf := p.drv.AllocateMemory(ctx, 8192)
+	src := make([]byte, 8192)
+	for i := range src {
+		src[i] = byte(i*7%255) + 1
+	}
+	if ok, _ := withTimeout(20e9, func() { p.drv.MemCopyH2D(ctx, buf, src) }); !ok {
+		return
+	}
+	for k := 0; k < 12; k++ {
+		l := rng.Pick(1, 64, 4096, 8192)
+		dst := make([]byte, l)
+		q := p.drv.CreateCommandQueue(ctx)
+		early := ""
+		driver.VerifYield = func(point string) {
+			if point != "queue.dequeue" || q.NumCommand() == 0 {
+				return
+			}
+			if c, ok := q.Peek().(*driver.MemCopyD2HCommand); ok {
+				if d, ok := c.Dst.([]byte); ok && len(d) > 0 && d[0] == 0 {
+					early = fmt.Sprintf("D2H copy of %d bytes is dequeued while the host buffer is still empty", len(d))
+				}
+			}
+		}
+		p.drv.EnqueueMemCopyD2H(q, dst, buf)
+		ok, _ := withTimeout(20e9, func() { p.drv.DrainCommandQueue(q) })
+		driver.VerifYield = nil
+		r.Checked("complete-after-data.emu")
+		if !ok {
+			r.Failf("C11.copy.hang", "emu D2H", "drain did not return")
+			return
+		}
+		if early != "" {
+			r.Failf("C11.copy.complete-before-data.emu", fmt.Sprintf("emulation platform: MemCopyD2H of %d bytes", l), "%s", early)
+			return
+		}
+	}
+}
+
+func init() {
+	register("C11", func(r *Run, rng *Rng, _ string) { c11EmuCompleteAfterData(r, rng) })
 }
